@@ -103,6 +103,33 @@ theorem iba_dipole_pattern (ft : ℝ → ℝ) (coeff k0 : ℝ) (e : Cx ℝ) (μs
   · rw [← dipole_pattern_v μs μi φ hs hi]; ring
   · rw [← dipole_pattern_h μs μi φ hs]; ring
 
+/-- the mechanism "ks is the integral of the same angular function that shapes the phase matrix": the integrand of
+    `compute_ks` at `μ` is `P_vv + P_hh` of `phase()` in the 1-2 frame (incident direction on the polar axis, azimuth 0)
+    when the effective medium is loss-free.  (For a lossy medium the code uses `|√ε_eff|` in `ks_integrand` and
+    `Re √ε_eff` in `phase`: the two wavenumbers differ by `O((Im/Re)²)`.) -/
+theorem iba_integrand_is_phase_12_frame (ft : ℝ → ℝ) (coeff k0 : ℝ) (e : Cx ℝ) (μ : ℝ) (h1 : -1 ≤ μ) (h2 : μ ≤ 1)
+    (he : (csq e).im = 0) :
+    ibaKsIntegrand ft coeff k0 e μ = ibaPhase ft coeff k0 e 0 0 μ 1 0 + ibaPhase ft coeff k0 e 1 1 μ 1 0 := by
+  unfold ibaKsIntegrand ibaPhase
+  rw [sinHalf_polar h1 h2, cabs_csq_of_im_zero e he]
+  simp only [rayP, fvv, fhh, sinOf_one, transc_cos_real, transc_sqrt_real, Real.cos_zero]
+  have : 2.0 * k0 * Real.sqrt ((1.0 - μ) / 2.0) * (csq e).re = 2.0 * k0 * (csq e).re * Real.sqrt ((1.0 - μ) / 2.0) :=
+    mul_right_comm _ _ _
+  rw [this]
+  generalize ft (2.0 * k0 * (csq e).re * Real.sqrt ((1.0 - μ) / 2.0)) = F
+  norm_num
+  ring
+
+example : (csq (⟨4, 0⟩ : Cx ℝ)).im = 0 := by
+  have h := (Fresnel.csqrt_isSqrt (⟨4, 0⟩ : Cx ℝ))
+  have hre := h.re_eq; have him := h.im_eq; have hn := h.re_nonneg
+  simp only at hre him
+  have h2 : (csq (⟨4, 0⟩ : Cx ℝ)).re * (csq (⟨4, 0⟩ : Cx ℝ)).im = 0 := by
+    unfold csq; linarith
+  rcases mul_eq_zero.mp h2 with h0 | h0
+  · exfalso; unfold csq at h0; rw [h0] at hre; nlinarith [mul_self_nonneg (Fresnel.csqrt (⟨4, 0⟩ : Cx ℝ)).im]
+  · exact h0
+
 /-- `compute_phase_norm`: the normalisation makes the Romberg 1-2-frame integral of the SCE phase function equal to the
     `ks` of the theory, whenever neither is zero -/
 theorem sce_phase_norm (ft : ℝ → ℝ) (ks k0 : ℝ) (e : Cx ℝ) (hks : ks ≠ 0)
